@@ -178,6 +178,11 @@ theorem first_entry_names_the_method (R : Registry) (cc code : Str) (l : List Ba
           exact ⟨hx, by simp [hc, hb]⟩
         exact hu x (hl ▸ hxl) e (hl ▸ List.mem_cons_self)
 
+/-- Instance obligation: every method id in the bank data is a two-character text (the form of a
+    Bundesbank method id, and the form of the keys the methods are registered under), so that "listed
+    with a method the library implements" is the same as "the id is a registered key". -/
+theorem live_method_ids_wellformed : Gen.malformedMethodIds = [] := by decide
+
 /-- All `checksum_algo` values listed for one bank code agree. -/
 def methodsAgree (ms : List Nat) : Bool := ms.all (fun m => some m == ms.head?)
 
